@@ -1686,4 +1686,101 @@ example : Ledger clEnv (walk clEnv clS4 0 12 false).1 [100, 8, 3] := by
     rw [h3]; decide
   rw [← h4]; exact c1
 
+-- ================================================================== `hre` is needed
+
+/-- `XV.C02.walk_Ledger` without `hre` (a pending transaction that the new branch confirms has a token input) -/
+def walk_Ledger_nohre_statement : Prop :=
+  ∀ (e : Env) (s : St) (lh : Int) (dest : Nat) (prune : Bool) (C C0 : List Nat), Ledger e s C →
+    C = C0 ++ blockTxs e (undoTodo e s.pointer dest).1.reverse →
+    (C0 ++ blockTxs e (undoTodo e s.pointer dest).2).Nodup →
+    (∀ bi ∈ (undoTodo e s.pointer dest).2, (∀ i ∈ (e.block bi).txs, (e.tx i).id = i) ∧
+      (∀ i ∈ (e.block bi).txs, (e.tx i).coinbase = true → (e.tx i).ins = [] ∧ feeOf (e.tx i).outs = 0)) →
+    ∃ C', Ledger e (walk e s lh dest prune).1 C' ∧
+      ((walk e s lh dest prune).2 = true → C' = C0 ++ blockTxs e (undoTodo e s.pointer dest).2)
+
+/-- `walk_Ledger_chain` without `hre` -/
+def walk_Ledger_chain_nohre_statement : Prop :=
+  ∀ (e : Env) (s : St) (lh : Int) (dest : Nat) (prune : Bool) (C : List Nat), ParentLower e → Ledger e s C →
+    ChainLog e s C → (e.block dest).id = dest →
+    (blockTxs e (ancestors e (e.blocks.length + 1) dest).reverse).Nodup →
+    (∀ bi ∈ (undoTodo e s.pointer dest).2, (∀ i ∈ (e.block bi).txs, (e.tx i).id = i) ∧
+      (∀ i ∈ (e.block bi).txs, (e.tx i).coinbase = true → (e.tx i).ins = [] ∧ feeOf (e.tx i).outs = 0)) →
+    ∃ C', Ledger e (walk e s lh dest prune).1 C' ∧
+      ((walk e s lh dest prune).2 = true → ChainLog e (walk e s lh dest prune).1 C')
+
+-- THE WITNESS (to be replayed on the real code). Transactions: 100 = genesis coinbase (16 to u0); 9, 8 = awards;
+--   1 = a transaction with NO token input, no output, no key read, no key write: ⟨1, false, [], [], [], []⟩.
+-- Blocks: 10 = [100] on the root; 11 = [9] on 10; 12 = [8, 1] on 10 (a sibling of 11 that confirms transaction 1).
+-- History: play 10; play 11; submit 1 (admitted: inputs 0 = outputs 0, nothing read)  ->  pointer 11, pool [1].
+-- Then `walk` to 12:  1. the pool is rolled back (pool := []);  2. block 11 is undone;  3. block 12 = [8, 1] is applied —
+--   transaction 1 is now CONFIRMED;  4. the old pool [1] is re-submitted: the pool is empty, so the membership test of
+--   `doTx` passes, and transaction 1 is admissible on any state (it has no input that block 12 could have spent, no key
+--   version that could be stale) — it is RE-ADMITTED.  The walk reports success.
+-- Result: pointer 12, pool [1], and transaction 1 is on the chain (in block 12) as well: the same transaction is
+--   confirmed and pending at once; the next block built from the pool would confirm it a second time. In terms of the
+--   invariant: the log of the path is [100, 8, 1], the pool [1], so `(C ++ pool).Nodup` (`Led.nodupA`) fails.
+-- The model has no "already confirmed" test in `doTx` (`doTx` looks at the pool and at the tables only); a transaction with
+--   a token input is refused on re-submission because its input is spent (`readmit_Ledger`) — hence `hre`.
+private def nhEnv : Env := {
+  txs := [
+    (100, ⟨100, true, [], [⟨"u0", 16, 0⟩], [], []⟩),
+    (1, ⟨1, false, [], [], [], []⟩),
+    (9, ⟨9, true, [], [⟨"miner", 10, 0⟩], [], []⟩),
+    (8, ⟨8, true, [], [⟨"miner2", 10, 0⟩], [], []⟩)],
+  blocks := [
+    (10, ⟨10, some 0, 1, [100], "g"⟩),
+    (11, ⟨11, some 10, 2, [9], "miner"⟩),
+    (12, ⟨12, some 10, 2, [8, 1], "miner2"⟩)] }
+private def nhS : St := (doTx nhEnv (play nhEnv (play nhEnv {} 0 (nhEnv.block 10)).1 0 (nhEnv.block 11)).1 0 1).1
+
+private theorem nhS_Ledger : Ledger nhEnv nhS [100, 9] := by
+  have g1 : Ledger nhEnv (play nhEnv {} 0 (nhEnv.block 10)).1 [100] := by
+    have := play_Ledger_full nhEnv {} 0 (nhEnv.block 10) [] (Ledger_genesis nhEnv) (by decide) (by decide) (by decide)
+      (by decide)
+    rw [if_pos (by decide)] at this
+    exact this
+  have g2 : Ledger nhEnv (play nhEnv (play nhEnv {} 0 (nhEnv.block 10)).1 0 (nhEnv.block 11)).1 [100, 9] := by
+    have := play_Ledger_full nhEnv _ 0 (nhEnv.block 11) [100] g1 (by decide) (by decide) (by decide) (by decide)
+    rw [if_pos (by decide)] at this
+    exact this
+  exact doTx_Ledger nhEnv _ 0 1 [100, 9] g2 (fun _ => by decide)
+
+-- what the model does on the witness
+example : nhS.pointer = 11 ∧ nhS.pool = [1] ∧ ChainLog nhEnv nhS [100, 9] ∧
+    undoTodo nhEnv nhS.pointer 12 = ([11], [12]) ∧
+    (walk nhEnv nhS 0 12 false).2 = true ∧ (walk nhEnv nhS 0 12 false).1.pointer = 12 ∧
+    (walk nhEnv nhS 0 12 false).1.pool = [1] ∧ ChainLog nhEnv (walk nhEnv nhS 0 12 false).1 [100, 8, 1] ∧
+    (walk nhEnv nhS 0 12 true).2 = true ∧ (walk nhEnv nhS 0 12 true).1.pool = [1] ∧
+    -- with a token input instead, the re-submission is refused: transaction 1 of `clEnv` (spends (100, 0)) pending at
+    -- block 10, walk to a block 13 = [8, 1] on 10
+    (let e13 : Env := { clEnv with blocks := clEnv.blocks ++ [(13, ⟨13, some 10, 2, [8, 1], "miner2"⟩)] }
+     let s := (doTx e13 (play e13 {} 0 (e13.block 10)).1 0 1).1
+     s.pool = [1] ∧ (walk e13 s 0 13 false).2 = true ∧ (walk e13 s 0 13 false).1.pool = []) := by decide
+
+/-- **`hre` is needed in `walk_Ledger`**: without it the statement is false. Witness above: a pending transaction with no
+token input that the destination branch confirms is confirmed by the walk AND re-admitted to the pool. -/
+theorem walk_Ledger_needs_hre : ¬ walk_Ledger_nohre_statement := by
+  intro hst
+  obtain ⟨C', c1, c2⟩ := hst nhEnv nhS 0 12 false [100, 9] [100] nhS_Ledger (by decide) (by decide) (by decide)
+  have hC : C' = [100, 8, 1] := c2 (by decide)
+  have hnd := c1.led.nodupA
+  rw [hC] at hnd
+  revert hnd
+  decide
+
+/-- **`hre` is needed in `walk_Ledger_chain`** as well: on the same witness no log satisfies both `Ledger` and `ChainLog`
+after the walk -/
+theorem walk_Ledger_chain_needs_hre : ¬ walk_Ledger_chain_nohre_statement := by
+  intro hst
+  obtain ⟨C', c1, c2⟩ := hst nhEnv nhS 0 12 false [100, 9] (parentLower_of_blocks _ (by decide)) nhS_Ledger (by decide)
+    (by decide) (by decide) (by decide)
+  have h3 : ChainLog nhEnv (walk nhEnv nhS 0 12 false).1 C' := c2 (by decide)
+  have hC : C' = [100, 8, 1] := by
+    unfold ChainLog at h3
+    rw [h3]; decide
+  have hnd := c1.led.nodupA
+  rw [hC] at hnd
+  revert hnd
+  decide
+
 end XV.C01
